@@ -124,12 +124,14 @@ def run(ctx, out):
     tokens = ["a", "b", "c"]
     begin_out = {"ok1": [P.status(receipt_no=11, result_code=0), P.completion()],
                  "ok2": [P.intermediate(), P.status(receipt_no=4242, result_code=0), P.completion()],
-                 "abort": [P.abort(0x6c)], "noreceipt": [P.status(result_code=0), P.completion()]}
+                 "abort": [P.abort(0x6c)], "noreceipt": [P.status(result_code=0), P.completion()],
+                 # a receipt number is reported, then the terminal aborts after all: the call fails and opens nothing
+                 "receipt_abort": [P.status(receipt_no=77, result_code=0), P.abort(0x6c)]}
     fin_out = {"ok": [P.status(result_code=0, amount=100, trace_number=7), P.completion()], "abort": [P.pr_abort(0xb4)]}
     can_out = {"ok": [P.completion()], "abort": [P.pr_abort(0xb5)]}
     letters = []
     for t in tokens:
-        for o in ("ok1", "abort", "noreceipt"):
+        for o in ("ok1", "abort", "noreceipt", "receipt_abort"):
             letters.append((f"begin:{tok(t)}", "0622", begin_out[o]))
         for o in ("ok", "abort"):
             letters.append((f"commit:{tok(t)}:100", "0623", fin_out[o]))
@@ -182,7 +184,7 @@ def run(ctx, out):
             h.append(x)
         cases.append(mk(tuple(h), mx))
     ops, impl = run_histories(ctx, out, cases, "begin/commit/cancel history")
-    out.rule = (f"call histories over tokens a,b,c x terminal outcomes (begin: receipt issued / aborted / completed without receipt; commit, cancel: completed / aborted): all histories up to depth 2 x max 0..3, "
+    out.rule = (f"call histories over tokens a,b,c x terminal outcomes (begin: receipt issued / aborted / completed without receipt / receipt reported and then aborted; commit, cancel: completed / aborted): all histories up to depth 2 x max 0..3, "
                 f"{'all' if thorough else '5000 sampled'} of depth {depth}, random walks to depth 40; the real Feig client against the simulated terminal must return exactly the results of the abstract token map and send exactly "
                 "the specified packets (refused calls: none); implementation = model = abstract specification. non-trivial = distinct (max, history, outcomes)")
     out.samples = [ops[5][:400], {"op": ops[-1][:200], "impl": impl[-1][:300]}]
